@@ -1408,10 +1408,12 @@ func (w *Wallet) swapToSend(
 	}
 
 	splitForSendAmount := cashu.AmountSplit(amount)
-	var feesToReceive uint = 0
+	var feesSplit []uint64
 	if includeFees {
-		feesToReceive = feesForCount(len(splitForSendAmount)+1, activeSatKeyset)
-		amount += uint64(feesToReceive)
+		feesSplit = splitFeesToReceive(len(splitForSendAmount), activeSatKeyset)
+		for _, feeAmount := range feesSplit {
+			amount += feeAmount
+		}
 	}
 
 	proofsToSwap, err := w.selectProofsForAmount(amount, mint, true)
@@ -1424,7 +1426,7 @@ func (w *Wallet) swapToSend(
 	var rs, changeRs []*secp256k1.PrivateKey
 	var counter, incrementCounterBy uint32
 
-	split := append(splitForSendAmount, cashu.AmountSplit(uint64(feesToReceive))...)
+	split := append(splitForSendAmount, feesSplit...)
 	slices.Sort(split)
 	// if no spendingCondition passed, create blinded messages from counter
 	if spendingCondition == nil {
@@ -1617,6 +1619,32 @@ func feesForProofs(proofs cashu.Proofs, mint *walletMint) uint {
 		}
 	}
 	return (fees + 999) / 1000
+}
+
+// splitFeesToReceive returns the amounts to add to a send of n proofs so that they cover
+// the input fees of everything sent, including the fees of the proofs added for the fees themselves.
+// The fee depends on how many proofs it is split into, so look for a number of proofs k
+// for which the fee of n+k proofs can be split into exactly k amounts.
+func splitFeesToReceive(n int, keyset *crypto.WalletKeyset) []uint64 {
+	for k := 1; k <= 64; k++ {
+		fees := uint64(feesForCount(n+k, keyset))
+		if fees == 0 {
+			return nil
+		}
+		split := cashu.AmountSplit(fees)
+		if len(split) > k || uint64(k) > fees {
+			continue
+		}
+		// split the biggest amounts in halves until there are k of them
+		for len(split) < k {
+			slices.Sort(split)
+			biggest := split[len(split)-1]
+			split[len(split)-1] = biggest / 2
+			split = append(split, biggest/2)
+		}
+		return split
+	}
+	return cashu.AmountSplit(uint64(feesForCount(n+1, keyset)))
 }
 
 func feesForCount(count int, keyset *crypto.WalletKeyset) uint {
